@@ -319,6 +319,54 @@ fn enumerate(tier: Tier, idx: u32, of: u32, cx: &mut Cx) -> CaseResult {
         cx.inner_nontrivial += 1;
     }
     crate::engine::force_remove(&sub);
+
+    // A long previous version in hunks of three entries (1300 hunks); the same tree is
+    // backed up again in hunks of two, so the hunk boundaries lie differently, and that backup
+    // is killed at an index hunk a quarter and a half of the way through: the interrupted
+    // version resumes inside a hunk of the long older index.
+    let o = ops::Opts { hunk: 2, block: 1 << 16, cap: 1 << 20 };
+    let sc = Scenario {
+        initial: tree::wide_tree(3900, 2, 3, crate::probes::plain_meta()),
+        prefix: vec![crate::history::Op::Backup(ops::Opts { hunk: 3, ..o })],
+        edits: vec![],
+        opts: o,
+        id_spread: 1,
+        headless_band: 0,
+    };
+    let sub = cx.dir("long-basis");
+    std::fs::create_dir_all(sub.join("r")).unwrap();
+    let cx4 = crate::engine::sub_cx(cx, sub.clone());
+    let base = Base::build(&sub, &sc);
+    crate::engine::heartbeat();
+    let trace = base.backup_trace(sc.opts);
+    let hunk_writes: Vec<Key> = trace.iter().filter(|l| l.key.verb == V::Write && l.key.path.contains("/i/")).map(|l| l.key.clone()).collect();
+    ensure!(
+        hunk_writes.len() > 1200,
+        "C03/harness/probe-too-small",
+        "{} hunk writes of {} operations ({} writes, {} reads; first writes {:?}); last: {:?}",
+        hunk_writes.len(),
+        trace.len(),
+        trace.iter().filter(|l| l.key.verb == V::Write).count(),
+        trace.iter().filter(|l| l.key.verb == V::Read).count(),
+        trace.iter().filter(|l| l.key.verb == V::Write).take(6).map(|l| l.key.path.clone()).collect::<Vec<_>>(),
+        trace.iter().rev().take(4).map(|l| format!("{:?} {} ok={}", l.key.verb, l.key.path, l.ok)).collect::<Vec<_>>()
+    );
+    let mut points = vec![hunk_writes[hunk_writes.len() / 4].clone(), hunk_writes[hunk_writes.len() / 2 + 1].clone()];
+    if tier == Tier::Thorough {
+        points.push(hunk_writes[hunk_writes.len() - 5].clone());
+        points.push(hunk_writes[3].clone());
+    }
+    for k in points {
+        crate::engine::heartbeat();
+        check_point(&base, &sc, &cx4, &k, false, &mut n).map_err(|mut f| {
+            f.signature = format!("{}/probe-long-basis", f.signature);
+            f.inner = json!((k, false));
+            f
+        })?;
+        cx.add_evals(1);
+        cx.inner_nontrivial += 1;
+    }
+    crate::engine::force_remove(&sub);
     Ok(())
 }
 
